@@ -40,6 +40,7 @@ F32s == {<<0,0,0,0>>, <<128,0,0,0>>, <<63,192,0,0>>, <<0,0,0,1>>, <<127,127,255,
 Chars == {97, 0, 233, 8364, 128512, 1114111, 55295}
 Strs == {<<>>, <<97>>, <<104, 105>>, <<195, 169>>, <<226, 130, 172, 32, 240, 159, 152, 128>>, <<117, 110, 100, 101, 102, 105, 110, 101, 100>>, <<110, 105, 108>>, <<116, 114, 117, 101>>,
          [i \in 1..300 |-> 97 + (i % 26)]}
+AtomLike == {<<116,114,117,101>>, <<102,97,108,115,101>>, <<110,105,108>>, <<117,110,100,101,102,105,110,101,100>>, <<111,107>>, <<69,108,105,120,105,114,46,65>>}
 SmallI64 == {"0", "-1", "4294967296", "-9223372036854775808"}
 SmallStr == {<<>>, <<104, 105>>, <<195, 169>>}
 Seqs(SS, n) == UNION { [1..m -> SS] : m \in 0..n }
@@ -64,6 +65,14 @@ ByType ==
     TupI64Str |-> {Seq_(<<I(x), S(s)>>) : x \in SmallI64, s \in SmallStr},
     TupU8BoolF64 |-> {Seq_(<<I("255"), B(b), F64(f)>>) : b \in BOOLEAN, f \in {<<128,0,0,0,0,0,0,0>>, <<63,248,0,0,0,0,0,0>>}},
     MapStrI64 |-> {Map_(<<>>)} \cup {Map_(<< <<S(k), I(x)>> >>) : k \in SmallStr, x \in SmallI64} \cup {Map_(<< <<S(<<97>>), I("1")>>, <<S(<<98>>), I("-9223372036854775808")>> >>)},
+    \* keys and values that look like atoms / booleans / nil in Erlang's eyes
+    MapAtomish |-> {Map_(<< <<S(k), S(x)>> >>) : k \in AtomLike, x \in AtomLike} \cup {Map_(<< <<S(<<116,114,117,101>>), S(<<>>)>>, <<S(<<110,105,108>>), S(<<110,105,108>>)>>, <<S(<<102,97,108,115,101>>), S(<<116,114,117,101>>)>> >>)},
+    VecAtomish |-> {Seq_(<<S(<<116,114,117,101>>), S(<<102,97,108,115,101>>), S(<<110,105,108>>), S(<<117,110,100,101,102,105,110,101,100>>), S(<<111,107>>)>>)},
+    UnitStruct |-> {UnitV},
+    BigStr |-> {S([i \in 1..n |-> 97 + (i % 26)]) : n \in {255, 256, 65535, 65536, 70000}},
+    BigBytes |-> {Seq_([i \in 1..n |-> I("7")]) : n \in {255, 256, 65535, 65536}},
+    TupI64I64 |-> {Seq_(<<I(a), I(b)>>) : a \in {"0", "-9223372036854775808"}, b \in {"1", "9223372036854775807"}},
+    ArrI64x2 |-> {Seq_(<<I(a), I(b)>>) : a \in {"0", "-9223372036854775808"}, b \in {"1", "9223372036854775807"}},
     MapI64Str |-> {Map_(<<>>)} \cup {Map_(<< <<I(x), S(<<118>>)>> >>) : x \in SmallI64} \cup {Map_(<< <<I("1"), S(<<>>)>>, <<I("4294967296"), S(<<195, 169>>)>> >>)},
     HMapStrU64 |-> {Map_(<< <<S(<<107>>), I(x)>> >>) : x \in U64s},
     Plain |-> Plains,
